@@ -11,6 +11,7 @@
 -/
 import HugrVerif.Proofs.Serial
 import HugrVerif.Proofs.SerialNormal
+import HugrVerif.Proofs.SerialOps
 import HugrVerif.SerialCodecs
 import HugrVerif.Props.C03
 
@@ -162,7 +163,7 @@ theorem loadEdges_links (c : OpCodec Ω) : ∀ (es : List Edge) (s s' : St Ω), 
 
 /-- The labelled codec of the raw store histories is lawful (decoding returns the label itself). -/
 theorem labelCodec_laws : CodecLaws labelCodec id := by
-  refine ⟨?_, ?_, fun _ _ _ => rfl, ?_⟩
+  refine ⟨?_, ?_, fun _ _ _ _ _ _ => rfl, ?_⟩
   · intro op p j _ h
     simp only [labelCodec] at h ⊢
     by_cases h1 : op = "module"
@@ -207,6 +208,13 @@ theorem json_fixed_point [Inhabited Ω] (rootOp : Ω) (m : Meta) (s : St Ω) (hr
 theorem json_fixed_point_label (m : Meta) (s : St String) (hr : C04.ReachT "module" m s) :
     JsonFixedPoint labelCodec s :=
   json_fixed_point "module" m s hr labelCodec id (fun _ => True) labelCodec_laws (fun _ _ _ => trivial)
+
+/-- … and for the full operation layer: a HUGR whose operations are complete, hold well-formed
+    constants and nest within the decoder's fuel (`GoodOp`; C05's round-trip theorems supply the laws). -/
+theorem json_fixed_point_ops (rootOp : Op) (m : Meta) (s : St Op) (hr : C04.ReachT rootOp m s) (N f : Nat)
+    (hgood : ∀ i d, getNode s i = .ok d → GoodOp N f d.op) : JsonFixedPoint (opsCodec (f + 1)) s :=
+  haveI : Inhabited Op := ⟨.input []⟩
+  json_fixed_point rootOp m s hr (opsCodec (f + 1)) (Op.norm Value.norm) (GoodOp N f) (opsCodec_laws N f) hgood
 
 /-- Non-vacuity / regression: a store with an order link, a multi-link, metadata and a reused
     index is a fixed point of the model's JSON round trip. -/
